@@ -205,6 +205,24 @@ func genBody(rt *rapid.T, class string, small bool) []byte {
 	}
 }
 
+func genStartFeed(rt *rapid.T, r *Run) (Op, bool) {
+	if len(r.W.Feeds) >= 5 {
+		return Op{}, false
+	}
+	op := Op{K: "StartFeed", C: pickColl(rt, r.W, "sf.coll"), Arg: map[string]any{"keysOnly": chance(rt, 20, "sf.keysonly")}}
+	if len(r.W.Handles) > 1 {
+		op.H = rapid.IntRange(0, len(r.W.Handles)-1).Draw(rt, "sf.h")
+	}
+	return op, true
+}
+
+func genStopFeed(rt *rapid.T, r *Run) (Op, bool) {
+	if len(r.W.Feeds) == 0 {
+		return Op{}, false
+	}
+	return Op{K: "StopFeed", Arg: map[string]any{"i": rapid.IntRange(0, len(r.W.Feeds)-1).Draw(rt, "stop.i")}}, true
+}
+
 // genXBody: body of a combined body+xattr write: mostly a JSON object (what Sync Gateway writes),
 // sometimes another JSON value, bytes that are not JSON, or an empty (non-nil) body - the entry
 // points take []byte and store it as it is.
@@ -700,6 +718,7 @@ func genOp1(rt *rapid.T, w *World, pr *Profile) Op {
 		if chance(rt, 30, "wu.cbexp") {
 			e := genExp(rt, pr.ExpW)
 			op.CbExp = &e
+			op.CbExpOnce = op.Prev == "stale" && chance(rt, 60, "wu.cbexponce")
 		}
 		if len(op.X) > 0 && chance(rt, 25, "macros") {
 			for k := range op.X {
